@@ -22,6 +22,7 @@ func init() {
 		}
 		return decl.Upper{S: strings.ToUpper(s)}, nil
 	}
+	ref.CustomUnmarshal["Shout"] = func(s string) (interface{}, error) { return decl.Shout(strings.ToUpper(s)), nil }
 	ref.CustomUnmarshal["OnOff"] = func(s string) (interface{}, error) {
 		switch s {
 		case "on":
